@@ -329,6 +329,9 @@ pub fn run_c09(ctx: &Ctx) -> Report {
 #[derive(Clone, Debug)]
 enum SOp {
     Handshake { connect: Pkt, connack: Pkt },
+    /// the two halves of a handshake, so that the application can act in between (a server may publish before its CONNACK)
+    HandshakeConnect { connect: Pkt },
+    HandshakeConnack { connack: Pkt },
     Publish { qos: u8, topic: &'static str, alias: Option<u16>, empty_topic: bool, payload: usize },
     PeerPublish { qos: u8, id: u32, topic: &'static str, alias: Option<u16>, empty_topic: bool },
     PeerAck { kind: AckKind, id: u32 },
@@ -380,9 +383,24 @@ fn gen_script(r: &mut Rng, ver: Ver, as_client: bool, new_session_by_clean: bool
             v.push(SOp::BetweenAliasOnlyPublish { qos: 1 + r.below(2) as u8, alias: r.range(1, 3) as u16 });
         }
     }
-    v.push(SOp::Handshake { connect, connack });
-    v.push(SOp::Probe);
     let topics = ["a", "b", "c/d"];
+    // (when the new session only begins with the CONNACK - "session not present" - the old session legitimately
+    // lives on between CONNECT and CONNACK: nothing to compare there)
+    if r.below(3) == 0 && (new_session_by_clean || resume) {
+        v.push(SOp::HandshakeConnect { connect });
+        for _ in 0..1 + r.usize(3) {
+            if r.below(3) == 0 {
+                v.push(SOp::Probe);
+            } else {
+                v.push(SOp::Publish { qos: 1 + r.below(2) as u8, topic: *r.pick(&topics), alias: None, empty_topic: false, payload: 1 });
+            }
+        }
+        v.push(SOp::Probe);
+        v.push(SOp::HandshakeConnack { connack });
+    } else {
+        v.push(SOp::Handshake { connect, connack });
+    }
+    v.push(SOp::Probe);
     for _ in 0..5 + r.usize(16) {
         v.push(match r.below(12) {
             0..=2 => {
@@ -437,6 +455,14 @@ fn run_script(c: &mut Box<dyn Conn>, script: &[SOp], ver: Ver, idw: usize, as_cl
             SOp::Handshake { connect, connack } => {
                 let (e1, e2) = if as_client { (send(c, connect)?, feed(c, connack)?) } else { (feed(c, connect)?, send(c, connack)?) };
                 format!("handshake => {} ; {}", evs_short(&normalise(&e1)), evs_short(&normalise(&e2)))
+            }
+            SOp::HandshakeConnect { connect } => {
+                let e1 = if as_client { send(c, connect)? } else { feed(c, connect)? };
+                format!("handshake(1) => {}", evs_short(&normalise(&e1)))
+            }
+            SOp::HandshakeConnack { connack } => {
+                let e2 = if as_client { feed(c, connack)? } else { send(c, connack)? };
+                format!("handshake(2) => {}", evs_short(&normalise(&e2)))
             }
             SOp::Publish { qos, topic, alias, empty_topic, payload } => {
                 let id = if *qos > 0 {
